@@ -22,7 +22,7 @@ COMPONENTS = {
     'reference': ['sim/ref_chunker.py'],
 }
 ASSUMPTIONS = ['the glue replaces the pybind11 argument conversion; 20k random next_cut calls agree with the pre-built extension (selftest)']
-PROBES = ['unaligned_max', 'min_eq_max', 'max_lt_8', 'empty_pieces', 'one_byte_pieces', 'piece_eq_max', 'tail_rule_half', 'stream_gt_2max', 'earlier_call_other_key']
+PROBES = ['unaligned_max', 'min_eq_max', 'max_lt_8', 'empty_pieces', 'one_byte_pieces', 'piece_eq_max', 'tail_rule_half', 'stream_gt_2max', 'earlier_call_other_key', 'huge_piece_over_64MiB']
 TIERS = {'quick': {'budget_s': 45, 'batch': 50}, 'thorough': {'budget_s': 600, 'batch': 100}}
 KNOWN_UNALIGNED_FRACTION = 0.2     # unaligned maxima (once a known finding, fixed since) stay well represented
 
@@ -89,6 +89,11 @@ def gen_segmentation(rng, n, mx):
 
 def gen_case(seed, tier):
     rng = substream(seed, 'c10')
+    if substream(seed, 'c10-huge').random() < 1 / 3000:
+        # one stream of tens of megabytes with shipped-size parameters, handed over in pieces of very different sizes
+        # (a single piece of > 64 MiB included); judged without the reference chunker, which is far too slow for it
+        return {'seed': seed, 'kind': 'huge', 'size': (64 << 20) + rng.randrange(1 << 20, 12 << 20), 'min': 128_000,
+                'max': rng.choice([5_120_000, 5_120_001, 1_000_003]), 'key': base64.b64encode(rng.randbytes(16)).decode()}
     mn, mx = gen_params(rng)
     key = rng.randbytes(16) if rng.random() < 0.9 else (b'\x01' + bytes(7) + rng.randbytes(8))
     if int.from_bytes(key[:8], 'little') == 0:
@@ -142,7 +147,73 @@ def cut(adapter, data, seg, key, tail, other=None):
         install.CTX.chunker_call_limit = None
 
 
+def run_huge(case):
+    import hashlib
+    import random
+    import replicat.utils.adapters as A
+    mn, mx, key = case['min'], case['max'], base64.b64decode(case['key'])
+    data = random.Random(case['seed']).randbytes(case['size'])
+    n = len(data)
+    view = memoryview(data)
+    viol, probes = [], {'huge_piece_over_64MiB': 1}
+    sig = {'unaligned_max': mx % 4 != 0, 'huge': True}
+    segs = {'one piece': [n], '16 MiB pieces': [16 << 20] * (n // (16 << 20)) + [n % (16 << 20)],
+            'five 4 MB pieces, then the rest as one piece': [4_000_000] * 5 + [n - 20_000_000],
+            'a big piece, then 1000 bytes': [n - 1000, 1000]}
+    lengths = {}
+    for label, seg in segs.items():
+        adapter = A.gclmulchunker(min_length=mn, max_length=mx)
+
+        def pieces(seg=seg):
+            pos = 0
+            for c in seg:
+                yield bytes(view[pos:pos + c])
+                pos += c
+        h = hashlib.blake2b(digest_size=16)
+        lens = []
+        for c in adapter(pieces(), params=key):
+            h.update(c)
+            lens.append(len(c))
+            if len(lens) > n // max(1, mn // 4) + 10:
+                break
+        if sum(lens) != n or h.digest() != hashlib.blake2b(data, digest_size=16).digest():
+            viol.append({'cls': 'not-lossless', 'sig': sig, 'msg': f'{n} bytes as {label}: concatenation of {len(lens)} chunks ({sum(lens)} bytes) != input'})
+            break
+        if 0 in lens:
+            viol.append({'cls': 'empty-chunk', 'sig': sig, 'msg': f'{n} bytes as {label}: empty chunk'})
+            break
+        pos = 0
+        for ln in lens:
+            if n - pos > 2 * mx and not (mn <= ln <= mx and ln % 4 == 0):
+                viol.append({'cls': 'out-of-bounds-chunk', 'sig': sig, 'msg': f'min={mn} max={mx} len={n} as {label}: chunk at {pos} has length {ln}'})
+                break
+            pos += ln
+        if viol:
+            break
+        lengths[label] = lens
+    if not viol:
+        def outside(lens):
+            out, pos = [], 0
+            for ln in lens:
+                if n - pos > 2 * mx:
+                    out.append((pos, ln))
+                pos += ln
+            return out
+        ref = outside(lengths['16 MiB pieces'])
+        for label, lens in lengths.items():
+            if outside(lens) != ref:
+                a = next((x, y) for x, y in zip(outside(lens) + [None], ref + [None]) if x != y)
+                viol.append({'cls': 'depends-on-segmentation', 'sig': sig,
+                             'msg': f'min={mn} max={mx} len={n}: outside the tail zone the chunks of "{label}" differ from those of 16 MiB pieces: (offset, length) {a[0]} vs {a[1]}'})
+                break
+    return {'violations': viol, 'digest': hashlib.blake2b(repr((case['seed'], lengths.get('one piece', [])[:50])).encode(), digest_size=8).hexdigest(),
+            'digests': [f'huge-{case["seed"]}'], 'nontrivial': True, 'probes': probes, 'evaluations': len(lengths),
+            'sample': {'kind': 'huge', 'min': mn, 'max': mx, 'len': n, 'chunks': len(lengths.get('one piece', []))}}
+
+
 def run_case(case):
+    if case.get('kind') == 'huge':
+        return run_huge(case)
     import hashlib
     import replicat.utils.adapters as A
     mn, mx = case['min'], case['max']
@@ -253,6 +324,8 @@ def run_case(case):
 
 
 def shrink(case):
+    if case.get('kind') == 'huge':
+        return
     data = base64.b64decode(case['data'])
     if len(case['segs']) > 1:
         for i in range(len(case['segs'])):
